@@ -39,6 +39,15 @@ theorem count_inv (P : Params) (hP : 0 < P.chunk) (hI : 0 < P.init) (E : Edges) 
   have hw := run_wf P hP E ops (MState.init P) (WF_new P hI)
   exact ⟨hw.count, hw.cursorFree, hw.nodup⟩
 
+/-- Non-vacuity of `count_inv` (its hypotheses are on the parameters only): the constants of the code, and a run
+that allocates a self-referential pair of slots, drops them, and collects. -/
+example :
+    let h := (run {} allEdges (MState.init {}) [.alloc (.atom 1), .alloc (.ref 0 0), .write 0 0 (.ref 1 1),
+      .dropRoot 0, .dropRoot 0, .gcFull, .alloc (.atom 2)]).1.heap
+    h.allocCount = freeCount h.cells ∧
+    (∃ c, h.cells[h.cursor]? = some c ∧ c.reachable = false) ∧ AddrNodup h.cells :=
+  count_inv {} (by decide) (by decide) allEdges _
+
 /-- The individual operations (each keeps the invariant, from any state that has it). -/
 theorem count_inv_allocate (P : Params) (hP : 0 < P.chunk) (h : Heap) (hw : WF h) (v : Val) :
     (h.allocate P v).1.allocCount = freeCount (h.allocate P v).1.cells := (allocate_spec P hP hw v).wf.count
@@ -79,6 +88,13 @@ theorem count_inv_other_threads (E : Edges) (others roots : List Val) (cs : List
   simp only [markTwoPhases, if_true]
   omega
 
+/-- Non-vacuity of `count_inv_other_threads`: the one-slot heap of the counterexample below (held by another
+thread only) satisfies the hypothesis. -/
+example :
+    let cs : List Cell := [{ addr := 0, reachable := true, value := .atom 1 }]
+    (markTwoPhases allEdges [.ref 0 0] [] true cs).2 = freeCount (markTwoPhases allEdges [.ref 0 0] [] true cs).1 :=
+  count_inv_other_threads allEdges _ _ _ (by simp [AddrNodup])
+
 /-- With the first counter dropped the invariant fails as soon as another thread holds a slot: one slot,
 held by the other thread only, is counted as free although it is marked. -/
 theorem count_inv_fails_if_stats_dropped :
@@ -113,6 +129,35 @@ theorem sweep_complete (P : Params) (E : Edges) (roots : List Val) (h : Heap) (d
       exact ⟨c0, hc0, ha.symm, hv.symm⟩
   · exact hfree
 
+/-- A heap for the non-vacuity of `sweep_complete` / `weak_box_cleared`: slot 10 is live (rooted), slots 11 ⇄ 12 are a
+garbage cycle of length 2, slot 13 is garbage that points INTO live data. -/
+def cycleHeap : Heap :=
+  { cells := [⟨10, true, .atom 1⟩, ⟨11, true, .ref 12 0⟩, ⟨12, true, .ref 11 0⟩, ⟨13, true, .ref 10 0⟩],
+    cursor := 0, allocCount := 0, growCount := 1, nextAddr := 14 }
+
+/-- Nothing but slot 10 is reachable from the root `(ref 10)`. -/
+theorem cycleHeap_reach (a : Addr) (h : Reach allEdges cycleHeap.cells [.ref 10 0] a) : a = 10 := by
+  induction h with
+  | root hm hi =>
+    simp only [List.mem_singleton] at hm
+    subst hm
+    have := Inside_ref hi
+    cases this; rfl
+  | cell _ hc hca hi ih =>
+    subst ih
+    simp only [cycleHeap, List.mem_cons, List.mem_nil_iff, or_false] at hc
+    rcases hc with rfl | rfl | rfl | rfl <;> simp at hca
+    have := Inside_atom hi
+    cases this
+
+/-- Non-vacuity of `sweep_complete`: every slot of the garbage cycle, and the garbage slot pointing into live data,
+that is still in the list after the collection is free. -/
+example (d : Cell) (hd : d ∈ (cycleHeap.collect {} allEdges [.ref 10 0]).cells)
+    (ha : d.addr = 11 ∨ d.addr = 12 ∨ d.addr = 13) : d.reachable = false :=
+  sweep_complete {} allEdges [.ref 10 0] cycleHeap d hd (fun hr => by
+    have := cycleHeap_reach d.addr hr
+    omega)
+
 /-- The marker follows no more than the specification (proved fields): unreachable in the specification's
 sense ⇒ unreachable for the marker ⇒ free after a collection. -/
 theorem marker_follows_only_spec_fields :
@@ -144,6 +189,14 @@ theorem no_growth_while_free (P : Params) (hP : 0 < P.chunk) (h : Heap) (hw : WF
   · have := (allocate_spec P hP hw v).reuse hne
     omega
 
+/-- Non-vacuity of `reuse_before_grow` / `no_growth_while_free`: the initial heap of `C04.demoP` (two free slots)
+satisfies `WF` and the guard; the allocation takes slot 0 and the list keeps its length. -/
+example (v : Val) : ((Heap.new demoP).allocate demoP v).1.cells.length = (Heap.new demoP).cells.length :=
+  no_growth_while_free demoP (by decide) (Heap.new demoP) (WF_new demoP (by decide)) v (by decide)
+
+example (v : Val) : ∃ c ∈ (Heap.new demoP).cells, c.addr = ((Heap.new demoP).allocate demoP v).2 ∧ c.reachable = false :=
+  (reuse_before_grow demoP (by decide) (Heap.new demoP) (WF_new demoP (by decide)) v).1
+
 /-! ## weak_box_cleared -/
 
 /-- **weak_box_cleared.**  A weak box holds the only handle to its private slot `a` (`others = false`).  If,
@@ -158,6 +211,12 @@ theorem weak_box_cleared (P : Params) (E : Edges) (roots : List Val) (h : Heap) 
     obtain ⟨hcm, hca⟩ := readCell_some hc
     have := sweep_complete P E roots h c hcm (hca ▸ hun)
     simp [this]
+
+/-- Non-vacuity of `weak_box_cleared`: a weak box on slot 12 (inside the garbage cycle) is cleared. -/
+example : (cycleHeap.collect {} allEdges [.ref 10 0]).weakGet 12 false = none :=
+  weak_box_cleared {} allEdges [.ref 10 0] cycleHeap 12 (fun hr => by
+    have := cycleHeap_reach 12 hr
+    omega)
 
 /-! ## heap_bounded — bounded live set ⇒ bounded number of slots, for any number of operations -/
 
@@ -224,12 +283,97 @@ theorem heap_bounded (M : Nat) (P : Params) (hc40 : 40 ≤ P.chunk) (hcM : P.chu
       ≤ 2 * M * 2 ^ ((run P E (MState.init P) ops).1.heap.growCount - 1) := h4
     _ ≤ 2 * M * 2 ^ P.resetLimit := Nat.mul_le_mul_left _ (Nat.pow_le_pow_right (by omega) (by omega))
 
+/-! ### … for the constants and the policy that are in the source
+
+`GenEdges.lean` carries `EXTEND_CHUNK`, `RESET_LIMIT`, the initial `grow_by` of `FreeList::new` and the recognised
+statements of the policy, read from `values/closed.rs` on every run. -/
+
+/-- The statements of the growth / compaction policy the model is written after (`Heap.growBy`, `Heap.compact`,
+`Heap.over95`, `Heap.fullPart`); the translator emits each of them only if it finds the statement in the source
+— in BOTH `impl FreeList` blocks and in all three copies of the collection routine. -/
+def policySpec : List String :=
+  ["grow_by: adds max(len, amount) free slots, grow_count += 1",
+   "grow = grow_by(EXTEND_CHUNK)",
+   "compact: keep marked slots, grow_count = 0, extend",
+   "is_heap_full = (alloc_count == 0)",
+   "percent_full = (len - alloc_count) / len",
+   "value_collection: after the mark, compact if grow_count > RESET_LIMIT else grow",
+   "value_collection: collects above 0.95",
+   "vector_collection: after the mark, compact if grow_count > RESET_LIMIT else grow",
+   "vector_collection: collects above 0.95",
+   "allocate_vector_iter: after the mark, compact if grow_count > RESET_LIMIT else grow",
+   "allocate_vector_iter: collects above 0.95"]
+
+/-- The parameters of the model, taken from the source. -/
+def srcParams : Params :=
+  { chunk := Gen.srcExtendChunk, init := Gen.srcInitialSlots, resetLimit := Gen.srcResetLimit }
+
+/-- **model_constants_match_source.**  The default parameters of the model are the constants of the source, the
+source constants satisfy the side conditions of `heap_bounded`, and every statement of the policy that the
+model transcribes is present in the source. -/
+theorem model_constants_match_source :
+    (({} : Params).chunk = Gen.srcExtendChunk ∧ ({} : Params).init = Gen.srcInitialSlots ∧
+      ({} : Params).resetLimit = Gen.srcResetLimit) ∧
+    (40 ≤ Gen.srcExtendChunk ∧ 40 ≤ Gen.srcInitialSlots ∧ Gen.srcInitialSlots ≤ 2 * Gen.srcExtendChunk) ∧
+    (∀ p ∈ policySpec, Gen.srcPolicy.contains p) := by decide
+
+/-- **heap_bounded for the code's constants.**  For every operation list in which every full collection finds
+at most `L` live slots, the free list never has more than `2 · max(L, EXTEND_CHUNK) · 2^RESET_LIMIT` slots
+(= `max(L, 25 600) · 1024` for the constants read today) and `grow_count ≤ RESET_LIMIT + 1`, whatever the number
+of operations. -/
+theorem heap_bounded_source (L : Nat) (E : Edges) (ops : List Op)
+    (hl : LiveOK (max L Gen.srcExtendChunk) srcParams E (MState.init srcParams) ops) :
+    (run srcParams E (MState.init srcParams) ops).1.heap.cells.length
+        ≤ 2 * max L Gen.srcExtendChunk * 2 ^ Gen.srcResetLimit ∧
+    (run srcParams E (MState.init srcParams) ops).1.heap.growCount ≤ Gen.srcResetLimit + 1 := by
+  have hc := model_constants_match_source.2.1
+  exact heap_bounded (max L Gen.srcExtendChunk) srcParams hc.1 (Nat.le_max_right _ _) hc.2.1
+    (Nat.le_trans hc.2.2 (Nat.mul_le_mul_left 2 (Nat.le_max_right _ _))) E ops hl
+
+example : 2 * max 1000 Gen.srcExtendChunk * 2 ^ Gen.srcResetLimit = 25600 * 1024 := by decide
+
 /-- Non-vacuity: the constants of the code satisfy the side conditions (with `L = 1000` live slots), and the
 hypothesis is satisfiable for a run that collects. -/
 example : (40 ≤ ({} : Params).chunk) ∧ ({} : Params).chunk ≤ max 1000 25600 ∧ 40 ≤ ({} : Params).init ∧
     ({} : Params).init ≤ 2 * max 1000 25600 := by decide
 
 example : LiveOK 100 demoP allEdges (MState.init demoP) [.gcMinor, .dropRoot 0] := ⟨trivial, trivial, trivial⟩
+
+/-- What a collection marks is at most the number of slots there are. -/
+theorem markedCount_le_length (E : Edges) (roots : List Val) (h : Heap) : markedCount E roots h ≤ h.cells.length := by
+  unfold markedCount
+  refine Nat.le_trans (List.length_filter_le _ _) ?_
+  obtain ⟨A, hA⟩ := markLoop_shape E (markAll (h.weakCollect (extOf roots)).cells) roots 0
+  show (markLoop E (markAll (h.weakCollect (extOf roots)).cells) roots 0).1.length ≤ _
+  rw [hA, markSet_length]
+  simp [markAll, weakCollect_length]
+
+/-- Parameters that satisfy the side conditions of `heap_bounded` with a small heap. -/
+def smallP : Params := { chunk := 40, init := 40, resetLimit := 9 }
+
+/-- **Non-vacuity of `LiveOK` / `heap_bounded` with allocations and a full collection** (the example above has
+neither, so every conjunct of its `LiveOK` is `True`): for EVERY value `v`, the run "allocate `v`, collect fully,
+collect minor" from the initial heap of `smallP` satisfies `LiveOK 40` — both the allocation and the full collection
+find at most 40 live slots because the list has 40 slots. -/
+theorem liveOK_alloc_gcFull (v : Val) :
+    LiveOK 40 smallP allEdges (MState.init smallP) [.alloc v, .gcFull, .gcMinor] := by
+  have hw : WF (Heap.new smallP) := WF_new smallP (by decide)
+  have hlen : (Heap.new smallP).cells.length = 40 := by decide
+  have hno : (Heap.new smallP).valueCollection smallP allEdges [v] false = Heap.new smallP := by
+    have : (Heap.new smallP).over95 = false := by decide
+    simp [Heap.valueCollection, this]
+  refine ⟨?_, ?_, trivial, trivial⟩
+  · exact Nat.le_trans (markedCount_le_length _ _ _) (by show (Heap.new smallP).cells.length ≤ 40; omega)
+  · refine Nat.le_trans (markedCount_le_length _ _ _) ?_
+    show ((Heap.new smallP).allocateGC smallP allEdges [] v).1.cells.length ≤ 40
+    unfold Heap.allocateGC
+    rw [hno, no_growth_while_free smallP (by decide) (Heap.new smallP) hw v (by decide)]
+    omega
+
+example (v : Val) :
+    (run smallP allEdges (MState.init smallP) [.alloc v, .gcFull, .gcMinor]).1.heap.cells.length ≤ 2 * 40 * 2 ^ 9 ∧
+    (run smallP allEdges (MState.init smallP) [.alloc v, .gcFull, .gcMinor]).1.heap.growCount ≤ 10 :=
+  heap_bounded 40 smallP (by decide) (by decide) (by decide) (by decide) allEdges _ (liveOK_alloc_gcFull v)
 
 /-- The marked count is what a collection finds live: every counted slot is reachable. -/
 theorem markedCount_le_reachable (E : Edges) (roots : List Val) (h : Heap) :
@@ -241,6 +385,77 @@ theorem markedCount_le_reachable (E : Edges) (roots : List Val) (h : Heap) :
   · obtain ⟨e', _, rfl⟩ := List.mem_map.mp he
     cases her
   · exact Reach_markAll.mp hreach
+
+/-- A list without repetitions whose elements all lie in `L` is not longer than `L`. -/
+theorem nodup_subset_length : ∀ (l L : List Nat), l.Nodup → (∀ a ∈ l, a ∈ L) → l.length ≤ L.length := by
+  intro l
+  induction l with
+  | nil => intro L _ _; exact Nat.zero_le _
+  | cons a t ih =>
+    intro L hnd hsub
+    have haL : a ∈ L := hsub a List.mem_cons_self
+    have hat : a ∉ t := (List.nodup_cons.mp hnd).1
+    have := ih (L.erase a) (List.nodup_cons.mp hnd).2 (fun b hb =>
+      (List.mem_erase_of_ne (fun (e : b = a) => hat (by rw [← e]; exact hb))).mpr
+        (hsub b (List.mem_cons_of_mem _ hb)))
+    rw [List.length_erase_of_mem haL] at this
+    have hpos : 0 < L.length := List.length_pos_of_mem haL
+    simp only [List.length_cons]
+    omega
+
+/-- **The hypothesis of `heap_bounded`, from reachability.**  If every address reachable from the roots (graph
+reachability in the heap as the program sees it, along the fields `E`) is in the list `L`, a full collection marks at
+most `L.length` slots: "the reachable data stays bounded by `M`" implies the conjunct of `LiveOK M` at that step. -/
+theorem markedCount_le_of_reachable (E : Edges) (roots : List Val) (h : Heap) (hw : WF h) (L : List Addr)
+    (hL : ∀ a, Reach E h.cells roots a → a ∈ L) : markedCount E roots h ≤ L.length := by
+  have hwc := WF_weakCollect (extOf roots) hw
+  obtain ⟨A, hA⟩ := markLoop_shape E (markAll (h.weakCollect (extOf roots)).cells) roots 0
+  have hcells : ((h.weakCollect (extOf roots)).marked E roots).cells =
+      markSet (markAll (h.weakCollect (extOf roots)).cells) A := hA
+  have hnd : AddrNodup ((h.weakCollect (extOf roots)).marked E roots).cells := by
+    rw [hcells]; exact AddrNodup_markSet A (AddrNodup_markAll hwc.nodup)
+  unfold markedCount
+  rw [← List.length_map (f := fun c : Cell => c.addr)]
+  apply nodup_subset_length
+  · exact List.Nodup.sublist (List.Sublist.map _ List.filter_sublist) hnd
+  · intro a ha
+    obtain ⟨d, hd, rfl⟩ := List.mem_map.mp ha
+    obtain ⟨hdm, hdr⟩ := List.mem_filter.mp hd
+    apply hL
+    refine Reach_of_values ?_ (markedCount_le_reachable E roots h d hdm hdr)
+    intro c' hc'
+    obtain ⟨c0, hc0, ha', hv, _⟩ := weakCollect_values' (extOf roots) c' hc'
+    exact ⟨c0, hc0, ha'.symm, hv.symm⟩
+
+/-- Non-vacuity: in `cycleHeap` only slot 10 is reachable from the root, so a full collection marks at most one
+slot (`cycleHeap` is not `WF` — its cursor slot is taken — so the instance is on the well-formed variant with one
+more, free, slot under the cursor). -/
+def cycleHeapWF : Heap :=
+  { cycleHeap with cells := cycleHeap.cells ++ [⟨14, false, .atom 0⟩], cursor := 4, allocCount := 1, nextAddr := 15 }
+
+theorem cycleHeapWF_wf : WF cycleHeapWF :=
+  { nodup := by simp [AddrNodup, cycleHeapWF, cycleHeap]
+    fresh := by intro c hc; simp [cycleHeapWF, cycleHeap] at hc ⊢; rcases hc with rfl | rfl | rfl | rfl | rfl <;> simp
+    count := by simp [cycleHeapWF, cycleHeap, freeCount]
+    cursorFree := ⟨⟨14, false, .atom 0⟩, by simp [cycleHeapWF, cycleHeap], rfl⟩ }
+
+example : markedCount allEdges [.ref 10 0] cycleHeapWF ≤ 1 :=
+  markedCount_le_of_reachable allEdges [.ref 10 0] cycleHeapWF cycleHeapWF_wf [10] (fun a hr => by
+    have : a = 10 := by
+      induction hr with
+      | root hm hi =>
+        simp only [List.mem_singleton] at hm
+        subst hm
+        have := Inside_ref hi
+        cases this; rfl
+      | cell _ hc hca hi ih =>
+        subst ih
+        simp only [cycleHeapWF, cycleHeap, List.cons_append, List.nil_append, List.mem_cons, List.mem_nil_iff,
+          or_false] at hc
+        rcases hc with rfl | rfl | rfl | rfl | rfl <;> simp at hca
+        have := Inside_atom hi
+        cases this
+    simp [this])
 
 /-! ## root_token_release — a released host root is a root of no later collection -/
 
@@ -317,6 +532,16 @@ theorem root_token_release {α : Type} (t : RootTable α) (hw : t.WF) (v : α) (
     simp only [RootTable.free, List.mem_filter, decide_eq_true_eq] at he
     exact he.2
 
+/-- Non-vacuity of `root_token_release` / `root_token_live`: the empty table is well-formed; a value rooted,
+two collections and another root later, stays a host root until its token is dropped, and is none afterwards. -/
+example : ∀ e ∈ (((((({} : RootTable Nat).root 7).1.run [.collect, .root 8, .collect]).free ⟨0, 0⟩).run
+      [.collect, .root 9])).roots, e.1 ≠ (⟨0, 0⟩ : Token) :=
+  root_token_release ({} : RootTable Nat) (fun e he => by cases he) 7 [.collect, .root 8, .collect] [.collect, .root 9]
+
+example : ((((({} : RootTable Nat).root 7).1.run [.collect, .root 8, .collect]).free ⟨0, 0⟩).run
+      [.collect, .root 9]).hostRoots = [9, 8] ∧
+    ((({} : RootTable Nat).root 7).1.run [.collect, .root 8, .collect]).hostRoots = [8, 7] := by decide
+
 /-- … and until its token is dropped the value IS a root of every collection (host data keeps it alive). -/
 theorem root_token_live {α : Type} (t : RootTable α) (v : α) (ops : List (RootOp α)) :
     (∀ op ∈ ops, ∀ k, op = RootOp.free k → k ≠ (t.root v).2) →
@@ -345,5 +570,43 @@ theorem release_under_current_generation_leaks :
     let r := t.root 7
     ((r.1.collect).freeUnderCurrent r.2).hostRoots = [7] ∧ ((r.1.collect).free r.2).hostRoots = [] := by
   decide
+
+/-! ## Clauses of the property not carried by a theorem
+
+* "Storage for boxes, mutable vectors and mutable struct instances": ONE free list of value slots is modelled
+  (`Heap::value_collection`); the vector free list (`vector_collection`, `allocate_vector_iter`) is covered only by
+  `model_constants_match_source` finding the same policy statements in its copies of the routine.  Mutable struct
+  fields and captured variables are value slots.
+* "that the program can no longer reach": the roots are an abstract LIST (`MState.roots`, `markTwoPhases.others`,
+  `RootTable.hostRoots`).  That the real root set (stacks, globals, continuations, other threads' stacks, host
+  tokens) contains nothing the program can no longer reach — "garbage referenced only from dead continuations,
+  dead threads or shadowed globals" — is not modelled; only the host-token part has a theorem
+  (`root_token_release`).
+* "including groups that refer to each other cyclically and closures that capture themselves": `sweep_complete`
+  is for every heap graph (cycles included) but relative to the fields the marker FOLLOWS (`E`); that these are
+  not more than the fields that hold values is `marker_follows_only_spec_fields` (`decide` over the regenerated
+  table).  Cycles through REFERENCE-COUNTED data only (immutable containers, `box-strong`) are never reclaimed by
+  this collector and are outside the property's "mutable storage".
+* "is reused by later allocations": `reuse_before_grow` (an allocation takes a free slot; the list grows only when
+  the last one is taken) and `sweep_complete` (unreachable ⇒ free after a full collection).  WHEN a full collection
+  happens is the policy `over95` inside `allocateGC`; "eventually" is not a theorem by itself — it is what
+  `heap_bounded` implies.
+* "a program whose reachable data stays bounded runs indefinitely in bounded memory": `heap_bounded` bounds the
+  NUMBER OF SLOTS by `2·M·2^RESET_LIMIT` under `LiveOK`, whose bound `M` is on the number of slots a full
+  collection MARKS at that moment (`markedCount`), not on the size of the reachable set as the program sees it:
+  `markedCount_le_of_reachable` gives the step from the one to the other ("every reachable address lies in a list of
+  length `M`" ⇒ `markedCount ≤ M`, for a well-formed heap), but it is not threaded through `LiveOK` for a whole
+  run: `heap_bounded` still takes the per-step bound as its hypothesis.  Memory held by the VALUES in the
+  slots, by immutable data, by the marker's queue and by freed-but-not-yet-dropped contents is not modelled.
+* "a weak box whose target has become unreachable reports so after a collection": `weak_box_cleared` for a weak box
+  that holds the ONLY handle (`others = false`), after a FULL collection; with another handle alive the value is
+  returned whatever the mark bit says (the model's `weakGet`), and a minor collection clears only slots without
+  any handle.
+* Several threads: only the order of the two mark phases and the sum of their counters
+  (`count_inv_other_threads`); concurrent allocation, the stop-the-world handshake (C15/C16) and `Relaxed` counters
+  are outside.
+`count_inv_fails_if_stats_dropped`, `release_under_current_generation_leaks` and the `example`s are evaluations on
+concrete inputs; `model_constants_match_source` and `marker_follows_only_spec_fields` are `decide` over the tables
+regenerated from the source on every run. -/
 
 end SteelVerif.C19
